@@ -250,6 +250,32 @@ def _evaluate_solo(entry, pym, inputs, seeds=None, rng=None):
     return dict(y=[snapshot(s.state) for s in outs], g=[strict_snapshot(s.sensitivity, pym) for s in _uins(entry, ins)], seeds=seeds)
 
 
+def fd_in_situ(entry, pym, m, ins, outs, seeds, g, rng):
+    """relative error between Re sum(g*v) and the Richardson central difference of Re sum(w*y) along an admissible
+    direction, evaluated with THIS instance (its inputs are restored afterwards)"""
+    uq = modzoo._uniq(entry, ins)
+    uins = [ins[i] for i in uq]
+    dirs = entry['dirs'](rng)
+    udirs = [dirs[i] for i in uq]
+    ubase = [_c(s.state) for s in uins]
+    if entry['freeze']:
+        entry['freeze'](m)
+    an = sum(modzoo.pairing(None if gi is None else gi[1], vi, pym) for gi, vi in zip(g, udirs) if vi is not None)
+    h = entry['h']
+
+    def f(t):
+        modzoo.set_inputs(uins, ubase, udirs, t)
+        m.response()
+        return modzoo.phi(outs, seeds)
+    d1 = (f(h) - f(-h)) / (2 * h)
+    d2 = (f(h / 2) - f(-h / 2)) / h
+    fd = (4 * d2 - d1) / 3
+    modzoo.set_inputs(uins, ubase, udirs, 0.0)
+    m.response()
+    scale = max(abs(an), abs(fd), 1e-3 * sum(float(np.sum(np.abs(dense(s.state)))) for s in outs) + 1e-12)
+    return abs(an - fd) / scale
+
+
 def interleaved_check(group, pym, rng):
     """group: zoo entries (typically built on the same domain object / kernels / index arrays).  Two instances per entry
     (the entry's point and a moved point).  References: each (entry, point) alone on a fresh instance, BEFORE the
@@ -273,14 +299,15 @@ def interleaved_check(group, pym, rng):
     for rnd, order in enumerate((list(range(len(inst))), list(reversed(range(len(inst)))))):
         for k in order:
             inst[k][0].response()
+        differs = set()
         for k in order:
             m, ins, outs = inst[k]
             e, inputs, ref, moved = plan[k]
             tol = max(e.get('xtol', 1e-9), 1e-9)
             if any(not agree(a, snapshot(s.state), tol) for a, s in zip(ref['y'], outs)):
-                fails.append((e, 'response of an instance evaluated among other instances equals the response of a fresh instance evaluated alone',
-                              dict(round=rnd, position=k, moved_point=moved, others=[str(p[0]['name']) for p in plan])))
-                return fails
+                # a response that depends on the other instances is not a clause of C01/C04 by itself: the sensitivity of
+                # THIS response is then checked against finite differences of this very instance instead of the reference
+                differs.add(k)
             _install(outs, ref['seeds'])
         for k in order:
             m, ins, outs = inst[k]
@@ -288,6 +315,13 @@ def interleaved_check(group, pym, rng):
             tol = max(e.get('xtol', 1e-9), 1e-9)
             m.sensitivity()
             now = [strict_snapshot(s.sensitivity, pym) for s in _uins(e, ins)]
+            if k in differs:
+                err = fd_in_situ(e, pym, m, ins, outs, ref['seeds'], now, rng)
+                if err > e['tol']:
+                    fails.append((e, 'Re sum(g*v) = d/dt Re sum(w*y(x+tv)) for an instance evaluated among other instances',
+                                  dict(round=rnd, position=k, moved_point=moved, relative_error=err, others=[str(p[0]['name']) for p in plan])))
+                    return fails
+                continue
             if any(not agree(a, b, tol) for a, b in zip(ref['g'], now)):
                 fails.append((e, 'sensitivity of an instance evaluated among other instances (their responses lie between its response and its sensitivity) '
                                  'equals the sensitivity of a fresh instance evaluated alone',
@@ -573,7 +607,7 @@ def _guard(ctx, name, cfg, scenario, fn):
             return fn()
     except Exception as ex:
         tb = ''.join(__import__('traceback').format_exception(ex))
-        if name == 'EigenSolve' and 'sparse' in str(cfg) and 'exactly singular' in str(ex):
+        if 'EigenSolve' in name and 'sparse' in str(cfg) and 'exactly singular' in str(ex):     # known finding K02 (sporadic: ARPACK start vector)
             ctx.count('skipped:K02 singular adjoint factorisation')
             return []
         ctx.violation('impl-violates', name, f'{scenario} completes without raising', 'zoo interaction', dict(module=name, cfg=str(cfg)),
@@ -583,6 +617,10 @@ def _guard(ctx, name, cfg, scenario, fn):
 
 def run_part(ctx, pym, E, prop, quick=True):
     """all interaction scenarios over the zoo E; prop in ('C01', 'C04') selects the stream offsets only"""
+    ctx.rule += (' Interaction scenarios (deterministic, every zoo entry, every seed; zoo_interactions.py): inputs that already hold a sensitivity of every '
+                 'admissible kind; two instances on the same input signals; interleaved instances sharing domain / option objects (fresh-instance references); '
+                 'shared AggScaling / AggActiveSet objects; inputs and seeds in every memory layout with buffers unchanged; LinSolve option sets against numpy '
+                 'formulas; seed-support sequences over every subset of outputs; corpus witnesses of F36/F37.')
     import pymoto.core_objects as _co
     orig = _co.get_init_str
     _co.get_init_str = lambda: 'zoo_interactions'       # Signal/Module construction walks the stack (5 ms each); only error texts use it
